@@ -17,8 +17,11 @@ func runOther(t *testing.T, spec *hutil.Spec, out *hutil.Out) {
 		}
 	case "C19":
 		// C19's real-time part (the rest of C19 runs in h_scn / h_race)
-		if spec.Worker == 0 && spec.Only == "" {
-			runStall(out)
+		if spec.Worker == 0 {
+			if spec.Only == "" {
+				runStall(out)
+			}
+			runWire(spec, out)
 		}
 	default:
 		out.HarnessErr = "unknown property " + spec.Property
@@ -37,6 +40,14 @@ func replayOther(t *testing.T, spec *hutil.Spec, out *hutil.Out, tier string) {
 		fmt.Printf("cell %s\nfile %q\nverdict: %v\n", w.Cell.Name(), render(w.Cell.File.Format, w.Cell.File.Items, w.Cell.File.Layout), err)
 		if err != nil {
 			out.Violate("C09|replay", err.Error(), spec.Replay)
+		}
+	case "wire":
+		var c wireCell
+		_ = json.Unmarshal(spec.Replay, &c)
+		err := runWireCell(c)
+		fmt.Printf("cell %s\nverdict: %v\n", c.Name(), err)
+		if err != nil {
+			out.Violate("C19|replay", err.Error(), spec.Replay)
 		}
 	case "realtime":
 		if spec.Property == "C19" {
